@@ -22,15 +22,8 @@ const HEADER: &str = "From SV Require Import Lib.Base Model.PeerRecord.\nLocal O
 const TAG_V6: &str = "v6-scope-flowinfo";
 
 // ------------------------------------------------------------------ Coq terms
-/// bytes as `(B32 [..] ++ [..])`: 32-byte big-endian chunks, then the remainder
-fn packed(b: &[u8]) -> String {
-    if b.len() < 32 {
-        return coq_bytes(b);
-    }
-    let full = b.len() / 32;
-    let chunks = coq_list((0..full).map(|i| n_of_be(&b[i * 32..(i + 1) * 32])));
-    if b.len() % 32 == 0 { format!("(B32 {})", chunks) } else { format!("(B32 {} ++ {})", chunks, coq_bytes(&b[full * 32..])) }
-}
+/// bytes as a plain Coq list of N (measured: far cheaper for coqc to read than big-number chunks)
+fn packed(b: &[u8]) -> String { coq_bytes(b) }
 fn coq_optb(o: Option<&[u8]>) -> String {
     match o { None => "None".into(), Some(b) => format!("(Some {})", packed(b)) }
 }
@@ -286,7 +279,7 @@ fn rec_term(r: &R, sig_token: usize) -> String {
 }
 fn msg_term(r: &R, m: &Option<Vec<u8>>) -> String {
     match m {
-        None => "None".into(),
+        None => "(@None bytes)".into(),
         Some(b) => {
             let pk = r.rec.public_key.as_bytes();
             // transport compression only: the key slice is replaced by the name bound to exactly those bytes
